@@ -1496,6 +1496,24 @@ def rule_R12frozen(text, applied, arg=None):
     return t
 
 
+def rule_R7own(text, applied):
+    """`for X in E {` where E is a path to an owned Vec of Copy elements (consumed by the loop) -> increment-first
+    index loop over the moved vector: `let ownN_ = E; let mut oN_: usize = 0; while oN_ < ownN_.len() { let X = ownN_[oN_]; oN_ += 1;`"""
+    cnt = 0
+    while True:
+        m_text = mask(text)
+        m = re.search(r"\bfor\s+(\w+)\s+in\s+((?:\w+\s*\.\s*)*\w+)\s*\{", m_text)
+        if not m:
+            break
+        x, e = m.group(1), "".join(m.group(2).split())
+        head = f"let own{cnt}_ = {e}; let mut o{cnt}_: usize = 0; while o{cnt}_ < own{cnt}_.len() {{ let {x} = own{cnt}_[o{cnt}_]; o{cnt}_ += 1;"
+        text = text[:m.start()] + _keep_newlines(text[m.start():m.end()], head) + text[m.end():]
+        cnt += 1
+    if cnt:
+        applied.append(f"R7ownx{cnt}")
+    return text
+
+
 def rule_R8bitget(text, applied):
     """`E.get(I).as_deref().copied()` on a BitVec -> `E.vget(I)` (stub method: Some(bit) in range, None beyond)."""
     t, n = _sub_masked(text, r"\.\s*get\(([^\)]+)\)\s*\.\s*as_deref\(\)\s*\.\s*copied\(\)", lambda m, s: f".vget({m.group(1).strip()})")
@@ -1770,7 +1788,7 @@ RULES = {
     "R25": rule_R25, "R7optake": rule_R7optake,
     "R23": rule_R23, "R24": rule_R24,
     "R16push": rule_R16push, "R22": rule_R22, "R22flat": rule_R22flat,
-    "R20": rule_R20, "R21": rule_R21, "R7stackrev": rule_R7stackrev, "R7pairs": rule_R7pairs, "R7indexmap": rule_R7indexmap, "R12frozen": rule_R12frozen, "R28": rule_R28, "R27": rule_R27, "R8all": rule_R8all, "R16od": rule_R16od, "R10site": rule_R10site,
+    "R20": rule_R20, "R21": rule_R21, "R7stackrev": rule_R7stackrev, "R7pairs": rule_R7pairs, "R7indexmap": rule_R7indexmap, "R12frozen": rule_R12frozen, "R7own": rule_R7own, "R28": rule_R28, "R27": rule_R27, "R8all": rule_R8all, "R16od": rule_R16od, "R10site": rule_R10site,
     "R1": rule_R1, "R2": rule_R2, "R2ref": rule_R2ref, "R3": rule_R3, "R4": rule_R4, "R5": rule_R5,
     "R8max": rule_R8max, "R8cmpmax": rule_R8cmpmax, "R8resize_none": rule_R8resize_none, "R9": rule_R9, "R8position": rule_R8position, "R8rotate": rule_R8rotate, "R12refcell": rule_R12refcell,
     "R8slice": rule_R8slice, "R7iter": rule_R7iter, "R8bitget": rule_R8bitget, "R8intonext": rule_R8intonext, "R8rposition": rule_R8rposition, "R8contains": rule_R8contains, "R12cell": rule_R12cell, "R8resize_veccap": rule_R8resize_veccap, "R8collectid": rule_R8collectid, "R8index": rule_R8index, "subst": rule_subst,
@@ -1787,10 +1805,23 @@ def register_rule(name, fn):
 # ----------------------------------------------------------------------------- splice
 
 def strip_attrs_and_docs(text):
-    """Remove doc comments and attribute lines inside an item (kept as blank lines)."""
+    """Remove doc comments and attribute lines inside an item (kept as blank lines).  A statement that is only
+    compiled with the `diagnostics` feature (`#[cfg(feature = "diagnostics")]` on its own line, then a one-line
+    statement) is dropped together with its attribute (DESIGN 2.1: diagnostics code is not extracted)."""
     out = []
+    drop_next = False
     for ln in text.split("\n"):
         s = ln.strip()
+        if drop_next and s:
+            drop_next = False
+            if s.endswith(";") and mask(s).count("{") == mask(s).count("}"):
+                out.append("")
+                continue
+            raise ExtractError("a #[cfg(feature = \"diagnostics\")] attribute inside a body is not followed by a one-line statement")
+        if re.fullmatch(r'#\[cfg\(feature\s*=\s*"diagnostics"\)\]', s) and ln.startswith("        "):
+            drop_next = True
+            out.append("")
+            continue
         if s.startswith("///") or s.startswith("//!"):
             out.append("")
         elif re.match(r"#!?\[.*\]$", s) and not s.startswith("#[verifier"):
